@@ -245,6 +245,13 @@ func propC12(c model.Case) hh.Verdict {
 						if is == zi || errors.Is(is.Err, zi) {
 							ok = true
 						}
+						// "a returned ZogIssue is reported as well": as its author wrote it, in both modes
+						if is == zi {
+							wantPath := map[string]string{"issue": "post.path", "issue-nopath": ""}[nodes[g.node].Posts[ev.Idx].Behaviour]
+							if is.Path != wantPath {
+								return hh.Fail("PostTransform #%d of n%d returned a ZogIssue with Path %q; it is reported with Path %q [%s]", ev.Idx, g.node, wantPath, is.Path, c.Exec.Mode)
+							}
+						}
 					} else if errors.Is(is.Err, want) && is.Path == path {
 						ok = true
 					}
@@ -466,7 +473,7 @@ func TestC12(t *testing.T) {
 	hh.Enumerate(h, "named-type-callbacks", c12NamedCells, propC12Named)
 	for _, mode := range []string{"parse", "validate"} {
 		cfg := model.DefaultCfg(mode)
-		cfg.PostBehaviours = []string{"record", "mutate", "record", "error", "issue", "mutate", "wrapped"}
+		cfg.PostBehaviours = []string{"record", "mutate", "record", "error", "issue", "mutate", "wrapped", "issue-nopath"}
 		cfg.PPost, cfg.PPre, cfg.POpts, cfg.NoMsgOpts = 0.3, 0.1, 0.2, true
 		cfg.PVary, cfg.PAbsent, cfg.PJunk, cfg.PTestSat, cfg.PClean = 0.2, 0.1, 0.04, 0.9, 0.4
 		if h.Thorough() {
